@@ -65,11 +65,16 @@ pub fn unhex(s: &str) -> Option<String> {
 /// Run the Lean model driver once over a batch of request lines; returns one response per request.
 pub fn run_driver(requests: &[String]) -> Vec<String> {
     let path = std::env::var("VDRIVER").unwrap_or_else(|_| "/verif/lean/.lake/build/bin/vdriver".to_string());
-    let mut child = Command::new(&path)
-        .stdin(Stdio::piped())
-        .stdout(Stdio::piped())
-        .spawn()
-        .unwrap_or_else(|e| panic!("cannot start model driver {path}: {e}"));
+    // the driver may be re-linked by a concurrent check: retry for a while before giving up
+    let mut child = None;
+    for attempt in 0..60 {
+        match Command::new(&path).stdin(Stdio::piped()).stdout(Stdio::piped()).spawn() {
+            Ok(c) => { child = Some(c); break; }
+            Err(e) if attempt == 59 => panic!("cannot start model driver {path}: {e}"),
+            Err(_) => std::thread::sleep(std::time::Duration::from_millis(500)),
+        }
+    }
+    let mut child = child.expect("driver");
     let mut stdin = child.stdin.take().expect("stdin");
     let data: String = requests.iter().map(|r| format!("{r}\n")).collect();
     let writer = std::thread::spawn(move || {
@@ -164,7 +169,16 @@ impl Report {
         self.count("mismatches_total");
     }
     pub fn oracle_failure(&mut self, v: Value) {
-        if self.oracle_failures.len() < 50 {
+        // cap per class so that failures of an already-listed (known) class never crowd out
+        // unclassified ones: at most 10 listed per class, 50 without a class
+        let class = v.get("class").and_then(|c| c.as_str()).map(|s| s.to_string());
+        let same = self
+            .oracle_failures
+            .iter()
+            .filter(|o| o.get("class").and_then(|c| c.as_str()).map(|s| s.to_string()) == class)
+            .count();
+        let cap = if class.is_some() { 10 } else { 50 };
+        if same < cap {
             self.oracle_failures.push(v);
         } else {
             self.count("oracle_failures_not_listed");
